@@ -429,10 +429,31 @@ Definition table_bits : list (string * (list arg -> out)) :=
 Definition zz2 (f : arr Z -> arr Z -> res (arr Z)) (args : list arg) : out :=
   match args with [AA s1 e1; AA s2 e2] => orarr (f (mka s1 e1) (mka s2 e2)) | _ => OBad end.
 
+(* formal sums: an operand element is the one-element list holding its own flat position; a product of two such
+   elements is the code of the pair; a sum is the concatenation (the run reads it as a multiset of products) *)
+Definition sym_mul (a b : list Z) : list Z :=
+  match a, b with [x], [y] => [(x * 1000 + y + 1)%Z] | _, _ => [0%Z] end.
+Definition sym_add (x y : list Z) : list Z := x ++ y.
+Definition positions (s : list Z) : arr (list Z) := mk (map (fun i => [Z.of_nat i]) (seq 0 (prod (nats s)))) (nats s).
+Definition sym2 (f : arr (list Z) -> arr (list Z) -> res (arr (list Z))) (args : list arg) : out :=
+  match args with
+  | [AA s1 _; AA s2 _] =>
+    match f (positions s1) (positions s2) with
+    | Ok r => OList (OL (map Z.of_nat (shape r)) :: map OL (elems r))
+    | Err e => OErr e | Panic => OPanic | Fuel => OFuel end
+  | _ => OBad end.
+
 Definition table_linalg : list (string * (list arg -> out)) :=
   [ ("vdot", zz2 (vdot 0%Z Z.add Z.mul)); ("inner", zz2 (inner 0%Z Z.add Z.mul)); ("outer", zz2 (outer Z.mul))
   ; ("matmul", zz2 (matmul 0%Z Z.add Z.mul false)); ("matmul_pinned", zz2 (matmul 0%Z Z.add Z.mul true))
   ; ("dot", zz2 (dot 0%Z Z.add Z.mul false)); ("dot_pinned", zz2 (dot 0%Z Z.add Z.mul true))
+  (* the same generic functions on FORMAL sums: the operands hold their own flat positions, a product is the code of
+     the pair (i, j), a sum appends a term.  Every entry of the result then names, in order, the products the code adds;
+     the run evaluates that expression on the float values of the case (NaN, infinities, fractions), exactly for the
+     non-finite behaviour and within a rounding bound otherwise *)
+  ; ("sym_vdot", sym2 (vdot [] sym_add sym_mul)); ("sym_inner", sym2 (inner [] sym_add sym_mul))
+  ; ("sym_outer", sym2 (outer sym_mul)); ("sym_matmul", sym2 (matmul [] sym_add sym_mul true))
+  ; ("sym_dot", sym2 (dot [] sym_add sym_mul true))
   ].
 
 (* ---- C16: structured constructors ---- *)
